@@ -994,6 +994,21 @@ def rule_fmtvallit(ctx, sig, body, arg):
     raise RuleError(f'no format!({lit}, ..)')
 
 
+def rule_startswith(ctx, sig, body, arg):
+    """@rule startswith: `X.starts_with('c')` (X a &str, pattern a char literal) -> `str_starts_with_char(X, 'c')`, whose contract is
+    the definition of str::starts_with for a char pattern (the text is non-empty and its first character is c).  The generic
+    `Pattern` machinery of std has no Verus specification."""
+    pat = re.compile(r"(\b[\w\.]+?)\s*\.\s*starts_with\(\s*('(?:[^'\\]|\\.)')\s*\)")
+    ms = [m for m in pat.finditer(body) if not _in_comment_or_string(body, m.start())]
+    if not ms:
+        raise RuleError("no `x.starts_with('c')`")
+    for m in reversed(ms):
+        new = f'str_starts_with_char({m.group(1)}, {m.group(2)})'
+        ctx.note('R-startswith', m.group(0), new)
+        body = body[:m.start()] + new + body[m.end():]
+    return sig, body
+
+
 def rule_mapcollect2(ctx, sig, body, arg):
     """@rule mapcollect2 <ElemType>: `let V = X .into_iter() .map(F) .collect::<Vec<_>>();` (F a function path, X a Vec of Copy items)
     -> `let mc__src = X; let mut V: Vec<ElemType> = Vec::new(); for mc__e in mc__src.iter() { V.push(F(*mc__e)); }`
